@@ -77,7 +77,7 @@ def _self_rdms(E):
     return Obj(z3.Const('self', V), 'RDMs', fields=fields), desc, idx
 
 
-def check_subsample(run, E):
+def check_subsample(run, E, pid='C09'):
     """RDMs.subsample(by, value): the real nested loops are summarised as a concatenation of filters.  For ALL descriptor
     columns and ALL value lists.  Property level: every sampled RDM carries a drawn value; every RDM of a drawn group is
     present; dissimilarity rows and EVERY rdm descriptor are gathered by the same index sequence; all other fields are the
@@ -86,7 +86,7 @@ def check_subsample(run, E):
     property-level clauses this gives the exact multiplicity (each RDM once per draw of its group, groups kept together)."""
     E.inline.add('rsatoolbox.util.data_utils.extract_dict')
     for case in ('list', 'scalar'):
-        ck = FuncCheck(E, run, 'C09', 'rsatoolbox.rdm.rdms.RDMs.subsample', f'value={case}')
+        ck = FuncCheck(E, run, pid, 'rsatoolbox.rdm.rdms.RDMs.subsample', f'value={case}')
         hold = {}
 
         def mk(E, case=case):
@@ -189,6 +189,12 @@ def run(run):
         for ck in gen(run, E):
             fails += ck.failed
     finish_engine(E, run)
+    # callee contracts: RDMs.subsample gathers every descriptor with extract_dict (contract generated by C10, discharged here too)
+    from contracts import C10
+    E10 = new_engine(run)
+    for ck in C10.check_selection_helpers(run, E10, pid='C09', fns=(), gathers=True):
+        fails += ck.failed
+    finish_engine(E10, run)
     bds = []
     try:
         from contracts import C09_c
